@@ -7,6 +7,8 @@ import ClarabelProofs.Lemmas.InfoCert
 import ClarabelProofs.Lemmas.InfoLengths
 import ClarabelModel.Unscale
 import Mathlib.Tactic.NormNum
+import ClarabelProofs.Lemmas.SolverModelRefine
+import ClarabelProofs.Lemmas.SolverModelExample
 
 namespace Clarabel.C03
 open Clarabel.Dense Clarabel.Info Finset
@@ -289,5 +291,78 @@ example :
         (fun r => (r.1.x, r.1.s, r.1.z, r.1.obj_val, r.1.iterations))
     = some (#[10], #[1, 99, 2], #[3, 0, 12], none, 4) := by
   decide +kernel
+
+end Clarabel.C03
+
+/-! ## The full model (`ClarabelModel/Solver/Solve.lean`: `DefaultSolver::new` + `solve()`)
+
+Theorems about the composed executable model that the channels `solve.setup / solve.init /
+solve.full / solve.twice` of `harness/src/bin/solver.rs` compare bit for bit with the
+implementation.  Class [S]: they hold at `Float`.  Helper lemmas: `Lemmas/SolverModel*.lean`. -/
+namespace Clarabel.C03
+open Clarabel Clarabel.Solver
+
+set_option linter.unusedSectionVars false
+
+section full
+variable {α : Type} [Add α] [Sub α] [Mul α] [Div α] [Neg α] [OfNat α 0] [OfNat α 1] [OfNat α 2]
+  [OfNat α 100] [OfNat α 1000] [LT α] [DecidableLT α] [LE α] [DecidableLE α] [BEq α] [FloatLike α]
+
+/-- **[S] `C03.full_iterations_eq_kkt_updates`.**  On the full model the iteration count reported
+in `solution.iterations` (= `info.iterations`) is the number of KKT updates performed during the
+solve, i.e. the number of passes of the loop that reached `kktsystem.update` (`kktUpdates`: the
+pass records carrying a `kktSuccess` flag) — on every way out of the loop: convergence or
+infeasibility verdict, iteration limit, insufficient-progress rollback, failed scaling update,
+failed KKT solve (`NumericalError`) and too short a step.  On the last two the count is set by
+the final `save_scalars`, which the code guards with `α == 0`; the hypothesis says that this
+comparison of the literal `0` with itself is `true` on the scalar type (it is for `f64`). -/
+theorem full_iterations_eq_kkt_updates {S : Solver α} {st : Solver.Settings α} {r : SolveResult α}
+    (hbeq : ((0 : α) == 0) = true) (h : S.solve st = .ok r) :
+    r.S.solution.iterations = kktUpdates r.traj ∧ r.S.st.info.iterations = kktUpdates r.traj := by
+  obtain ⟨L, hL, ht, hi, _, hit, _⟩ := solve_inv h
+  have := (finishInfo_spec (runSolve_exit hL)).2.2 hbeq
+  rw [hit, hi, ht]
+  exact ⟨this, this⟩
+
+/-- **[S] `C03.full_solution_lengths`** (`solution_lengths`).  On the full model — `DefaultSolver::new`
+followed by any number of `solve()` calls (here: one, and one more) — the returned `x`, `s`, `z`
+have the user's lengths `n = A.n`, `m = A.m`, `m`, also when cones were collapsed and rows were
+dropped by the presolver (they are restored by `reverse_presolve`); the settings of the solves
+need not be the ones of `new`. -/
+theorem full_solution_lengths {P : Csc α} {q : Array α} {A : Csc α} {b : Array α}
+    {cones : List (ConeT α)} {st0 st1 st2 : Solver.Settings α} {perm : Array Nat} {S : Solver α}
+    {r1 : SolveResult α} (hn : Solver.new P q A b cones st0 perm = .ok S) (h1 : S.solve st1 = .ok r1) :
+    (r1.S.solution.x.size = A.n ∧ r1.S.solution.s.size = A.m ∧ r1.S.solution.z.size = A.m)
+    ∧ ∀ r2, r1.S.solve st2 = .ok r2 →
+        r2.S.solution.x.size = A.n ∧ r2.S.solution.s.size = A.m ∧ r2.S.solution.z.size = A.m := by
+  have hsol : S.solution = Unscale.Solution.new A.n A.m := by
+    unfold Solver.new at hn
+    obtain ⟨_, _, hn⟩ := bind_ok_inv hn
+    obtain ⟨_, _, hn⟩ := bind_ok_inv hn
+    cases hn
+    rfl
+  obtain ⟨_, _, _, _, _, _, hx, hs, hz⟩ := solve_inv h1
+  have e1 : r1.S.solution.x.size = A.n := by rw [hx, hsol]; simp [Unscale.Solution.new]
+  have e2 : r1.S.solution.s.size = A.m := by rw [hs, hsol]; simp [Unscale.Solution.new]
+  have e3 : r1.S.solution.z.size = A.m := by rw [hz, hsol]; simp [Unscale.Solution.new]
+  refine ⟨⟨e1, e2, e3⟩, fun r2 h2 => ?_⟩
+  obtain ⟨_, _, _, _, _, _, hx2, hs2, hz2⟩ := solve_inv h2
+  exact ⟨hx2.trans e1, hs2.trans e2, hz2.trans e3⟩
+
+end full
+
+/-! non-vacuity of the two theorems: a concrete run of the full model in the kernel (`Int`) -/
+section fullExamples
+open Clarabel.Solver.Example
+attribute [local instance] intFloatLike
+
+/-- `new` and `solve()` succeed on the example (hypotheses `hn`, `h1`, `h`): `Solved` after one
+iteration, two passes -/
+example : (run 3).toOption.map (fun r => (r.passes, r.S.solution.status, r.S.solution.iterations))
+    = some (2, .solved, 1) := run3
+/-- `0 == 0` on the example's scalar type -/
+example : ((0 : Int) == 0) = true := by decide
+
+end fullExamples
 
 end Clarabel.C03
